@@ -205,6 +205,30 @@ def run(prop, tier):
             rid += 1
         if pg is not None:
             import sciris as sc
+            from atomica.utils import TimeSeries
+
+            # program sets with no uncertainty: the sampled program set must run exactly like the source, also when the optional
+            # saturation / capacity-constraint rows are in use
+            for variant in ("as is", "with saturation and capacity constraint"):
+                g = sc.dcp(pg)
+                progs = list(g.programs.values())
+                if variant != "as is":
+                    progs[0].saturation = TimeSeries(assumption=0.8, units="N.A.")
+                    progs[-1].capacity_constraint = TimeSeries(assumption=1e5, units="people/year")
+                ins = at.ProgramInstructions(start_year=float(Q.settings.sim_start + 3), alloc=g)
+                for par in q.all_pars():
+                    for ts in par.ts.values():
+                        ts.sigma = None
+                before = DG.dig(g)
+                try:
+                    base = DG.result_digest(Q.run_sim(q, g, ins, store_results=False))
+                    samp = DG.result_digest(Q.run_sim(q, g.sample(), ins, store_results=False))
+                    records.append(dict(id=rid, kind="zero", sampled=samp, unsampled=base, before=before, after=DG.dig(g)))
+                    index[rid] = dict(kind="zero uncertainty progset", model=name, variant=variant)
+                except Exception as ex:
+                    records.append(dict(id=rid, kind="book", ok=False))
+                    index[rid] = dict(kind="program book sampleable", model=name, variant=variant, error="%s: %s" % (type(ex).__name__, str(ex)[:150]))
+                rid += 1
 
             for variant in ("as is", "explicit interactions", "explicit interactions, sigma None", "explicit interactions, sigma 0"):
                 g = sc.dcp(pg)
